@@ -95,6 +95,7 @@ class AssembleGeneral(Module):
         if dgdmat.size <= 0:
             return [None]
         if self.bc is not None:
+            dgdmat = dgdmat.copy()  # The sensitivity of the output signal must remain untouched
             dgdmat[self.bc, :] = 0.0
             dgdmat[:, self.bc] = 0.0
         dx = np.zeros_like(self.sig_in[0].state)
